@@ -47,14 +47,15 @@ class _AddressList(Writeable):
 
     @property
     def _value(self) -> Writeable:
-        if self.headers:
-            addresses: list[Address] = []
-            for header in self.headers:
-                # SingleAddressHeader.address raises unless the value holds
-                # exactly one address, e.g. an empty ``Sender:``
-                addresses.extend(header.addresses)
-            return List([self._parse(address)
-                         for address in addresses])
+        addresses: list[Address] = []
+        for header in self.headers:
+            # SingleAddressHeader.address raises unless the value holds
+            # exactly one address, e.g. an empty ``Sender:``
+            addresses.extend(header.addresses)
+        if addresses:
+            # "(" 1*address ")": the addresses follow one another directly
+            return List([_Concatenated([self._parse(address)
+                                        for address in addresses])])
         else:
             return Nil()
 
